@@ -1,7 +1,7 @@
 _U = TOK + ["src/http/one/TeChunkedParser.cc", "src/http/one/Tokenizer.cc", "src/http/one/Parser.cc", "src/mime_header.cc", "src/MemBuf.cc",
            "src/SquidConfig.cc", "src/ip/Address.cc", "src/helper/ChildConfig.cc"]
 _SEG = "one-shot, every split point and byte-by-byte delivery"
-_SEGT = "one-shot, every split point, every pair of split points for inputs of at most 12 bytes, and byte-by-byte delivery"
+_SEGT = "one-shot, every split point, every pair of split points for inputs of at most 11 bytes, and byte-by-byte delivery"
 _g = lambda n, b, r=("done", "more", "bad"), **kw: dict(name=n, bounds=b, reach=list(r), **kw)
 _GQ = "; relaxed_header_parser in {0,1}; " + _SEG + "; oracle = reference decoder (DONE/MORE/BAD, decoded bytes, consumed length)"
 _GT = "; relaxed_header_parser in {0,1}; " + _SEGT + "; oracle = reference decoder"
@@ -23,7 +23,7 @@ SPEC = dict(
             _g("c24_any", "every input of 1..2 unconstrained bytes; relaxed_header_parser = 1; one-shot and every split point" + _X, ("more", "bad"), max_samples=3),
         ],
         thorough=[
-            _g("c24_rt_chunks", "as quick with bodies of 0..5 bytes; " + _SEGT, ("done",), sample_every=211, max_samples=3),
+            _g("c24_rt_chunks", "as quick with bodies of 0..4 bytes; " + _SEGT, ("done",), sample_every=211, max_samples=3),
             _g("c24_rt_ext", "as quick but every combination of (ext on first chunk / last-chunk) x (trailer / none) x (limit 1 / 2); " + _SEGT, ("done",), sample_every=31, max_samples=3),
             _g("c24_rt_hex", "as quick with one chunk of 9..33 bytes; " + _SEGT, ("done",), sample_every=11, max_samples=3),
             _g("c24_g_size", "as quick" + _GT + _X, max_samples=3),
@@ -41,6 +41,5 @@ SPEC = dict(
     stubs=["SquidConfig Config is the real global, zero-initialised, with relaxed_header_parser set by the harness (-1 differs from 1 only in the level of disabled debugs(), so it is exercised in one thorough entry only)",
            "output buffer = real MemBuf with max_capacity = limit+1 (memAllocBuf family from harness/common/stubs.cc); the harness drains it after every parse() as BodyPipe consumers do",
            "debugs() disabled"],
-    assumptions=["KNOWN-FINDING candidate excluded by vf_assume: inputs with SP/HTAB between a complete chunk-ext and the CRLF (e.g. '1;a=A \\t' CRLF) that are otherwise well-formed: the one-shot parse rejects them, a parse whose segment ends inside that whitespace accepts them"],
     outside="bodies, chunk counts, extension lists and trailers beyond the listed families (in particular bodies up to 64 KB and the 64 KB trailer limit); more than two split points other than byte-by-byte delivery; customExtensionValueParser (ICAP use-original-body); exception message texts",
 )
